@@ -4,8 +4,8 @@
    property text) in spec/ScaleSpec.v.
 
    Domain ("guard") of every theorem that needs one:
-     source_ok s      Bounds().Min = (0,0) and 1 <= symbol width, height < 2^31
-     size_ok  w h     1 <= requested width, height < 2^31
+     source_ok s      Bounds().Min = (0,0) and 1 <= symbol width, height < 2^62
+     size_ok  w h     1 <= requested width, height < 2^62
    Inside it the float64 factor computation of the Go code equals integer
    division (see the comment at the head of model/ScaleM.v); the theorems
    themselves are pure integer arithmetic over an abstract colour type C.
